@@ -7,12 +7,13 @@ verus! {
 
 //@include prelude/errors.rs
 //@include prelude/opaque_payloads.rs
-//@include prelude/opaque_command.rs
 //@include prelude/std_specs.rs
 //@include prelude/wire_traits.rs
 //@include prelude/opaque_maindevice.rs
 //@include prelude/received_pdu.rs
 
+pub assume_specification<T>[ Option::<T>::or ](a: Option<T>, b: Option<T>) -> (r: Option<T>)
+    ensures r == (if a is Some { a } else { b });
 /*@type file=src/command/reads.rs name=Reads derive="Clone, Copy, PartialEq, Eq, Debug" @*/
 /*@type file=src/command/reads.rs name=WrappedRead derive="Clone, Copy, Debug" @*/
 /*@type file=src/command/writes.rs name=Writes derive="Clone, Copy, PartialEq, Eq, Debug" @*/
@@ -28,11 +29,47 @@ pub open spec fn wkc_error_for(expected: Option<u16>, p: ReceivedPdu, e: Error) 
     expected is Some && expected->Some_0 != p.wkc_v() && e == (Error::WorkingCounter { expected: expected->Some_0, received: p.wkc_v() })
 }
 
-impl WrappedRead {
+/*@type file=src/command/mod.rs name=Command derive="Clone, Copy, PartialEq, Eq, Debug" @*/
+impl From<Reads> for Command {
+/*@fn file=src/command/mod.rs impl="impl From<Reads> for Command" name=from ret=none canary=0
+@*/
+}
+impl vstd::std_specs::convert::FromSpecImpl<Reads> for Command {
+    open spec fn obeys_from_spec() -> bool { true }
+    open spec fn from_spec(v: Reads) -> Command { Command::Read(v) }
+}
+impl From<Writes> for Command {
+/*@fn file=src/command/mod.rs impl="impl From<Writes> for Command" name=from ret=none canary=0
+@*/
+}
+impl vstd::std_specs::convert::FromSpecImpl<Writes> for Command {
+    open spec fn obeys_from_spec() -> bool { true }
+    open spec fn from_spec(v: Writes) -> Command { Command::Write(v) }
+}
+impl EtherCrabWireWrite for () {
+    open spec fn packed(&self) -> Seq<u8> { Seq::empty() }
     #[verifier::external_body]
-    pub async fn common(&self, maindevice: &MainDevice, len: u16) -> (r: Result<ReceivedPdu, Error>)
-        ensures r is Ok ==> net_read(self.command, len, r->Ok_0), r is Err ==> net_failed(r->Err_0)
+    fn packed_len(&self) -> (r: usize) { 0 }
+}
+impl MainDevice {
+    /// the exchange itself (MainDevice::single_pdu, extracted whole in unit group_cycle): ONE datagram with this command, this
+    /// payload and this length override goes out; what comes back for it - or the exchange's own error - is returned
+    #[verifier::external_body]
+    pub async fn single_pdu<V: EtherCrabWireWrite>(&self, command: Command, data: V, len_override: Option<u16>) -> (r: Result<ReceivedPdu, Error>)
+        ensures
+            r is Ok ==> (match command {
+                Command::Read(c) => len_override is Some && data.packed().len() == 0 && net_read(c, len_override->Some_0, r->Ok_0),
+                Command::Write(c) => net_write(c, data.packed(), len_override, r->Ok_0),
+                _ => true,
+            }),
+            r is Err ==> net_failed(r->Err_0),
     { unimplemented!() }
+}
+
+impl WrappedRead {
+/*@fn file=src/command/reads.rs impl="impl WrappedRead" name=common make_async=1 subst="<'maindevice>=>@@&'maindevice MainDevice<'maindevice>=>&MainDevice@@impl core::future::Future<Output = Result<ReceivedPdu<'maindevice>, Error>>=>Result<ReceivedPdu, Error>" props=C11
+    ensures r is Ok ==> net_read(self.command, len, r->Ok_0), r is Err ==> net_failed(r->Err_0)
+@*/
 
 /*@fn file=src/command/reads.rs impl="impl WrappedRead" name=new props=C11
     ensures r.command == command, r.wkc == Some(1u16)
@@ -70,10 +107,12 @@ impl WrappedRead {
 }
 
 impl WrappedWrite {
-    #[verifier::external_body]
-    pub async fn common<V: EtherCrabWireWrite>(&self, maindevice: &MainDevice, value: V, len_override: Option<u16>) -> (r: Result<ReceivedPdu, Error>)
-        ensures r is Ok ==> net_write(self.command, value.packed(), len_override, r->Ok_0), r is Err ==> net_failed(r->Err_0)
-    { unimplemented!() }
+/*@fn file=src/command/writes.rs impl="impl WrappedWrite" name=common make_async=1 subst="<'maindevice>=><V: EtherCrabWireWrite>@@&'maindevice MainDevice<'maindevice>=>&MainDevice@@impl EtherCrabWireWrite=>V@@impl core::future::Future<Output = Result<ReceivedPdu<'maindevice>, Error>>=>Result<ReceivedPdu, Error>" props=C11
+    ensures r is Ok ==> net_write(self.command, value.packed(), len_override, r->Ok_0), r is Err ==> net_failed(r->Err_0)
+@*/
+/*@fn file=src/command/writes.rs impl="impl WrappedWrite" name=with_len subst="impl Into<u16>=>u16@@new_len.into()=>new_len" props=C11,C04
+    ensures r.command == self.command, r.wkc == self.wkc, r.len_override == Some(new_len)
+@*/
 
 /*@fn file=src/command/writes.rs impl="impl WrappedWrite" name=new props=C11
     ensures r.command == command, r.wkc == Some(1u16), r.len_override is None
@@ -85,8 +124,11 @@ impl WrappedWrite {
     ensures r.command == self.command, r.wkc == Some(wkc), r.len_override == self.len_override
 @*/
 /*@fn file=src/command/writes.rs impl="impl WrappedWrite" name=send subst="<'maindevice>=>@@'maindevice=>'_" props=C11
-    // documented exemption: fire-and-forget, the response (and its working counter) is ignored
-    ensures true
+    // documented exemption: fire-and-forget, the response (and its working counter) is ignored - but the datagram that goes out
+    // carries this command, this payload and the length set by with_len, and an exchange error is reported
+    ensures
+        r is Ok ==> exists|p: ReceivedPdu| #[trigger] net_write(self.command, data.packed(), self.len_override, p),
+        r is Err ==> net_failed(r->Err_0),
 @*/
 /*@fn file=src/command/writes.rs impl="impl WrappedWrite" name=send_receive_slice subst="<'maindevice>=>@@'maindevice=>'_" props=C11
     ensures
